@@ -14,7 +14,7 @@ PROP = dict(
                    quick=dict(n=160, len=1, shards=8, timeout=300), thorough=dict(n=3200, len=1, shards=16, timeout=1500))],
         engine="volumes", harness="volumes", driver="drv_volumes",
         driver_args=(os.environ.get("VERIF_VOLUMES_FIXES") or VOLUMES_FIXES).split(),
-        props=["Hostd.Props.C02"],
+        props=["Hostd.Props.C02", "Hostd.Props.C02Rpc"],
         extra=dict(mode="data"),
         corpus_filter=r"^c02_",
         flag_filter=r"^(read_intact|prune_only_unreferenced|shrink_keeps_occupied|lost_counted|data/)",
